@@ -372,8 +372,25 @@ def t1_typestate(chk):
     """typestate analysis of compile() (rules/compile_ts.py): end-to-end bookkeeping invariants for an arbitrary
     module over every outcome of every component call"""
     from rules import compile_ts
-    compile_ts.ts_rule(chk, 'C19.T1', ['borrow-failed-only', 'borrow-eligible', 'borrow-status', 'verbatim', 'own-key'])
+    compile_ts.ts_rule(chk, 'C19.T1', ['borrow-failed-only', 'borrow-eligible', 'borrow-status', 'nodeps', 'verbatim', 'own-key'])
+
+
+
+def r10_borrowed_text_read_verbatim(chk):
+    """borrowers read through the ordinary readers: what FileReader returns is what gets written - shared with C14.R1"""
+    from rules.C14 import r1_file_reader
+    common.reuse(chk, r1_file_reader, ('C14.R1',), 'C19.R10',
+                 'FileReader.getData (the reader behind the file borrowers) opens the file in binary mode and returns '
+                 'decode(read(maxMibSize)) - no text-mode newline translation, no error-ignoring decoder - so a '
+                 'borrowed module is written byte for byte (C14.R1)',
+                 keep=lambda o: o.key.split('/')[-1] in ('binary-read', 'size-cap', 'same-path-stat-and-open'), floor=2)
+
+
+
+def r11_every_borrower_is_asked(chk):
+    from rules.C08 import r7_every_component_is_asked
+    r7_every_component_is_asked(chk, rule='C19.R11', meths=('getData',), attrs=('_borrowers',))
 
 
 RULES = [r1_borrow_loop, r2_hand_over, r3_flavour, r4_requested_stay_eligible, r5_failed_map_consistency, r6_argument_agreement,
-         r7_borrower_order_is_fixed, r8_borrowed_status_survives_the_write, r9_wellformedness, t1_typestate]
+         r7_borrower_order_is_fixed, r8_borrowed_status_survives_the_write, r9_wellformedness, t1_typestate, r10_borrowed_text_read_verbatim, r11_every_borrower_is_asked]
